@@ -6,7 +6,8 @@ on EVERY path what the source observes; four witnesses against the unrestricted 
 Ties: Lang.EC.eval vs parser._eval_const vs CPython's own eval on name-free expressions; ConstEnv fold sites vs the emitted text
 (which `len(name)` became a constant, and which constant); model source trace vs CPython; model emitted trace vs compiled firmware.
 Oracle E: firmware vs CPython on scripts with fold sites under branches decided at run time, loops and the main loop; folded
-delays of name-free arguments; metamorphic twin with every constant routed through a run-time variable."""
+delays of name-free arguments; metamorphic twin with every constant routed through a run-time variable; straight-line list bookkeeping
+(append / remove of present, absent and falsy values) read by len() and flash_pattern(), against CPython and a literal twin."""
 from __future__ import annotations
 
 import ast
@@ -264,6 +265,78 @@ def tracked_lists(ctx):
             ctx.fail("fold:tracked-list-straight-line", f"firmware prints {fwv} where Python prints {pyv} for straight-line list bookkeeping", {"script": src})
 
 
+def tracked_patterns(ctx):
+    """the same straight-line bookkeeping read by the OTHER consumers of the tracked value: led.flash_pattern(xs) bakes the pattern,
+    len(xs) the length.  int and bool lists, falsy elements (0 / False) favoured, every removal of a present value; twin P' takes the
+    values Python has at that point as literals (the mutations stay): the two firmwares must write the same pins, and both must agree
+    with CPython's serial lines and delays.  Own PRNG stream (the older generators keep theirs)."""
+    import random
+    rng = random.Random(f"{ctx.seed}:C03:tracked-patterns")
+    head = "from Reduino.Actuators import Led\nfrom Reduino.Communication import SerialMonitor\nmon = SerialMonitor(9600)\nled = Led(13)\n"
+    pairs = []
+    for _ in range(ctx.n(40, 400)):
+        kind = rng.choice(["int", "int", "bool"])
+        pool = [0, 0, 0, 1, 1, 40, 90, 255] if kind == "int" else [False, False, True]
+        fresh = [0, 1, 120] if kind == "int" else [False, True]
+        xs = [rng.choice(pool) for _ in range(rng.randint(2, 5))]
+        a, b = [f"xs = {xs}"], [f"xs = {xs}"]
+        cur = list(xs)
+        for _ in range(rng.randint(1, 5)):
+            k = rng.choice(["ap", "rm", "rm", "rmx", "len", "flash"])
+            if k == "ap":
+                v = rng.choice(fresh)
+                cur.append(v)
+                a.append(f"xs.append({v})"); b.append(f"xs.append({v})")
+            elif k == "rm" and len(cur) > 1:
+                v = rng.choice(cur)
+                cur.remove(v)
+                a.append(f"xs.remove({v})"); b.append(f"xs.remove({v})")
+            elif k == "rmx" and kind == "int":
+                v = rng.choice([x for x in (0, 6, 7) if x not in cur] or [13])
+                t = ["try:", f"    xs.remove({v})", "except:", "    mon.write(99)"]
+                a += t; b += t
+            elif k == "flash":
+                d = rng.choice([5, 10, 20])
+                a.append(f"led.flash_pattern(xs, {d})"); b.append(f"led.flash_pattern({cur}, {d})")
+            else:
+                a.append("mon.write(len(xs))"); b.append(f"mon.write({len(cur)})")
+        d = rng.choice([5, 10, 20])
+        a += [f"led.flash_pattern(xs, {d})", "mon.write(len(xs))"]
+        b += [f"led.flash_pattern({cur}, {d})", f"mon.write({len(cur)})"]
+        pairs.append((head + "\n".join(a) + "\n", head + "\n".join(b) + "\n"))
+    outs = [(cxx.transpile(p), cxx.transpile(q)) for p, q in pairs]
+    jobs = []
+    for (cp, _), (cq, _) in outs:
+        if cp is not None and cq is not None:
+            jobs += [(cp, 0, ""), (cq, 0, "")]
+    it = iter(cxx.run_many(ctx, jobs))
+    for (p, q), ((cp, ep), (cq, eq)) in zip(pairs, outs):
+        if cp is None or cq is None:
+            ctx.count("tracked-pattern:rejected")
+            continue
+        rp, rq = next(it), next(it)
+        ctx.case(p, nontrivial=True)
+        if rp.compile_error or rq.compile_error or not rp.ok or not rq.ok:
+            ctx.count("tracked-pattern:does-not-compile-or-run")
+            continue
+        ctx.cov["traces_validated_against_impl"] += 1
+        ctx.count("tracked-pattern")
+        replay = {"script": p, "twin": q}
+        keep = lambda tr: [l for l in tr if l.split(" ")[0] in ("dw", "aw", "delay", "println") and l != "println x3939"]
+        if keep(rp.trace) != keep(rq.trace):
+            i = next((j for j, (x, y) in enumerate(zip(keep(rp.trace), keep(rq.trace))) if x != y), min(len(keep(rp.trace)), len(keep(rq.trace))))
+            ctx.fail("fold:tracked-list-pattern", f"firmware of the script and of its twin (values written out as literals) differ at event {i}: "
+                     f"{keep(rp.trace)[i:i + 4]} vs {keep(rq.trace)[i:i + 4]}", replay)
+            continue
+        ev, err = pyoracle.run_script(p, 0)
+        if err is not None:
+            continue
+        pyv = [e for e in ev if e != ("w", "99")]
+        fwv = [e for e in pyoracle.fw_events(rp.trace) if e != ("w", "99")]
+        if pyv != fwv:
+            ctx.fail("fold:tracked-list-pattern", f"firmware serial lines/delays {fwv} where Python gives {pyv}", replay)
+
+
 def run(ctx: Ctx) -> int:
     ctx.prove(["Reduino.Props.C03"])
     common.fresh_import()
@@ -272,8 +345,11 @@ def run(ctx: Ctx) -> int:
     const_env(ctx)
     shadowing(ctx)
     tracked_lists(ctx)
+    tracked_patterns(ctx)
     lateinit.check(ctx, "fold:global-initialiser-order", 40, 400)
     ctx.cov["rule"] = ("(a) random name-free expressions + chained comparisons: model vs _eval_const vs Python eval; folded sleep() arguments vs firmware delays; "
                        "(b) random scripts over str/list names with len() fold sites, appends/removes, rebinding, branches decided by a run-time value, loops, main loop "
-                       "(half of them fold-safe by construction): fold sites vs emitted text, model traces vs CPython and firmware, firmware vs CPython; (c) parameters shadowing constants")
+                       "(half of them fold-safe by construction): fold sites vs emitted text, model traces vs CPython and firmware, firmware vs CPython; (c) parameters shadowing constants; "
+                       "(d) straight-line append/remove (present, absent, falsy 0/False values) on tracked int and bool lists read by len(), len()-based indexing and "
+                       "led.flash_pattern(): firmware vs CPython and vs the twin with the values written out as literals")
     return ctx.finish(TRUSTED, search=None)
